@@ -227,7 +227,7 @@ func checkC03(sc *Scenario) *CheckResult {
 	// become valid, only never to be reported decoded). Framing and status rules still apply.
 	garbageIn := view != nil && b.Kind == "http_status" && b.HTTPStatus/100 == 2 && view.Codec == c.Codec
 	for _, p := range cv.Problems {
-		if garbageIn && strings.HasPrefix(p, "body does not decode") {
+		if garbageIn && (strings.HasPrefix(p, "body does not decode") || strings.HasPrefix(p, "payload does not decode")) {
 			res.class("undecodable_backend_payload_forwarded")
 			continue
 		}
